@@ -10,11 +10,24 @@ pub fn hash_with<H: Hasher + Default, T: std::hash::Hash>(x: &T) -> u64 {
     BuildHasherDefault::<H>::default().hash_one(x)
 }
 
+/// extreme item values: through `NoHashHasher` their hashes are 0, u64::MAX, one-bit patterns, 2^32 boundaries —
+/// sentinels, wrap-arounds and narrowed casts live there
+pub const EXTREME_ITEMS: [u64; 12] = [0, u64::MAX, u64::MAX - 1, 1, 1 << 63, (1 << 32) - 1, 1 << 32, (1 << 31) - 1, 0xffff_ffff_0000_0000,
+    0x0100_0000_0000_0000, 0xff00_0000_0000_0000, 0x00ff_ffff_ffff_ffff];
+
 pub fn gen_stream(rng: &mut Sm64, n: usize) -> Vec<u64> {
-    // distinct items; half the time small dense integers
+    // distinct items; half the time small dense integers; one stream in five STARTS with a few extreme values
     let dense = rng.below(2) == 0;
     let mut v = Vec::new();
     let mut seen = std::collections::HashSet::new();
+    if rng.below(5) == 0 {
+        let k = 1 + rng.below(4) as usize;
+        let start = rng.below(EXTREME_ITEMS.len() as u64) as usize;
+        for i in 0..k.min(n) {
+            let x = EXTREME_ITEMS[(start + i * 5) % EXTREME_ITEMS.len()];
+            if seen.insert(x) { v.push(x); }
+        }
+    }
     while v.len() < n {
         let x = if dense { rng.below(4 * n as u64 + 4) } else { rng.next() >> 1 };
         if seen.insert(x) {
@@ -157,7 +170,10 @@ fn smh2_case(ctx: &mut Ctx, m: usize, items: &[u64], chunks: usize, kind: usize)
                 }
                 let (values, l, b, au) = s.verif_state();
                 let hs: Vec<u64> = s.get_hsketch().iter().map(|x| *x as u64).collect();
-                format!("{} | {} | {} | {} | {}", join(&hs), join(&values), join(&l), join(&b), au)
+                // every position of a non-empty stream's sketch shows the hash of a streamed item (whatever the hasher)
+                let hashes: std::collections::HashSet<u64> = items.iter().map(|x| { let it: $T = $conv(*x); hash_with::<$H, $T>(&it) }).collect();
+                let foreign: Vec<u64> = hs.iter().cloned().filter(|h| !hashes.contains(h)).collect();
+                (format!("{} | {} | {} | {} | {}", join(&hs), join(&values), join(&l), join(&b), au), foreign)
             }))
         }};
     }
@@ -166,7 +182,16 @@ fn smh2_case(ctx: &mut Ctx, m: usize, items: &[u64], chunks: usize, kind: usize)
         1 => run!(u64, u64, NoHash2, |x: u64| x),
         _ => run!(u32, u32, NoHash2, |x: u64| x as u32),
     };
-    ctx.line("smh2 dump a", &r.unwrap_or("PANIC".into()));
+    match r {
+        Ok((txt, foreign)) => {
+            ctx.line("smh2 dump a", &txt);
+            if !foreign.is_empty() && !items.is_empty() {
+                ctx.oracle_failure(serde_json::json!({"kind":"impl_violates_property","what":"SuperMinHash2 position shows a value that is not the hash of a streamed item","sketcher":kname,"m":m,
+                    "items":items.iter().take(20).map(|x| hx(*x)).collect::<Vec<_>>(),"foreign_values":foreign.iter().take(5).map(|x| hx(*x)).collect::<Vec<_>>()}));
+            }
+        }
+        Err(_) => ctx.line("smh2 dump a", "PANIC"),
+    }
 }
 
 pub fn corr_smh(ctx: &mut Ctx) {
